@@ -164,3 +164,11 @@ package jsonapi
 
 //@ func MarshalDocument+
 //@ assert after Slice#0 included-sorted: forall a int, b int :: 0 <= a && a < b && b < len(doc.Included) ==> !(str(R_get($rh, doc.Included[b], "id")) < str(R_get($rh, doc.Included[a], "id")))
+
+// Each resource is marshaled with the field list stored under its own type name.
+//@ func MarshalCollection+
+//@ assert before MarshalResource#0 own-fields: $arg0 == C_at($rh, c, i) && $arg2 == listOf(fields, R_type($rh, $arg0).Name) && $arg3 == relData && $arg1 == prepath
+//@ func MarshalDocument+
+//@ assert before MarshalResource#0 own-fields: $arg0 == doc.Data && $arg2 == listOf(url.Params.Fields, R_type($rh, $arg0).Name) && $arg3 == doc.RelData && $arg1 == doc.PrePath
+//@ assert before MarshalResource#1 own-fields: $arg2 == listOf(url.Params.Fields, R_type($rh, $arg0).Name) && $arg3 == doc.RelData && $arg1 == doc.PrePath
+//@ assert before MarshalCollection#0 all-fields: $arg0 == doc.Data && $arg2 == url.Params.Fields && $arg3 == doc.RelData && $arg1 == doc.PrePath
